@@ -954,3 +954,365 @@ Theorem piece_layer_count d : length (layer d) = ceil_div (length d) pl.
 Proof. apply (bep52_piece_layer_length H256 B HB k pl Hpl). Qed.
 
 End C02.
+
+(* ========================================================================================== *)
+(* 6. T4 (C03): the v1 view of a hybrid metafile                                               *)
+(* ========================================================================================== *)
+
+(* reading an entry of info["files"] *)
+Definition is_pad (v : value) : bool :=
+  match v with
+  | BDict d => match lookup k_attr d with Some _ => true | None => false end
+  | _ => false
+  end.
+Definition entry_len (v : value) : nat :=
+  match v with
+  | BDict d => match lookup k_length d with Some (BInt z) => Z.to_nat z | _ => 0 end
+  | _ => 0
+  end.
+Definition abs_entry (v : value) : entry := (is_pad v, entry_len v).
+
+Lemma abs_file_entry rel n : abs_entry (file_entry rel n) = (false, n).
+Proof. unfold abs_entry, file_entry, is_pad, entry_len. lk. cbn. rewrite Nat2Z.id. reflexivity. Qed.
+
+Lemma abs_pad_entry n : abs_entry (pad_entry n) = (true, n).
+Proof. unfold abs_entry, pad_entry, is_pad, entry_len. lk. cbn. rewrite Nat2Z.id. reflexivity. Qed.
+
+Lemma abs_aligned_entries pl f :
+  map abs_entry (v1_aligned_entries pl f) = v1_file_entries_aligned pl (length (snd f)).
+Proof.
+  unfold v1_aligned_entries, v1_file_entries_aligned. cbv zeta. cbn [map].
+  rewrite abs_file_entry. destruct (neg_mod (length (snd f)) pl =? 0); cbn [map];
+    [|rewrite abs_pad_entry]; reflexivity.
+Qed.
+
+Lemma abs_aligned_list pl fs :
+  map abs_entry (flat_map (v1_aligned_entries pl) fs) =
+  v1_entries true pl (map (fun f => length (snd f)) fs).
+Proof.
+  unfold v1_entries. induction fs as [|f fs IH]; [reflexivity|].
+  cbn [flat_map map]. rewrite map_app, IH, abs_aligned_entries. reflexivity.
+Qed.
+
+(* every element of such a list is a payload entry or a well-formed pad entry *)
+Lemma aligned_list_shape pl fs v : In v (flat_map (v1_aligned_entries pl) fs) ->
+  (exists rel n, v = file_entry rel n) \/ (exists n, v = pad_entry n).
+Proof.
+  intros Hv. apply in_flat_map in Hv. destruct Hv as (f & _ & Hv).
+  unfold v1_aligned_entries in Hv. cbv zeta in Hv. destruct Hv as [<-|Hv].
+  - left. eexists _, _. reflexivity.
+  - destruct (neg_mod (length (snd f)) pl =? 0); [destruct Hv|].
+    destruct Hv as [<-|[]]. right. eexists. reflexivity.
+Qed.
+
+Lemma filter_aligned_list pl fs :
+  filter (fun v => negb (is_pad v)) (flat_map (v1_aligned_entries pl) fs) =
+  map (fun f => file_entry (fst f) (length (snd f))) fs.
+Proof.
+  induction fs as [|f fs IH]; [reflexivity|]. cbn [flat_map map].
+  unfold v1_aligned_entries at 1. cbv zeta. cbn [app filter].
+  change (is_pad (file_entry (fst f) (length (snd f)))) with false. cbn [negb]. f_equal.
+  destruct (neg_mod (length (snd f)) pl =? 0); cbn [app filter]; [exact IH|].
+  change (is_pad (pad_entry (neg_mod (length (snd f)) pl))) with true. cbn [negb]. exact IH.
+Qed.
+
+Lemma chunks_concat_padded pl datas : 0 < pl ->
+  flat_map (fun d => chunks pl (pad_to pl d)) datas = chunks pl (concat (map (pad_to pl) datas)).
+Proof.
+  intros Hpl. induction datas as [|d datas IH];
+    [cbn [flat_map map concat]; rewrite chunks_nil; reflexivity|].
+  cbn [flat_map map concat]. rewrite IH. symmetry. apply chunks_app_multiple; [exact Hpl|].
+  rewrite pad_to_neg_mod, app_length, zeros_length.
+  pose proof (neg_mod_sum (length d) pl Hpl) as E.
+  apply Nat.mod_divides in E; [|lia]. destruct E as [c E]. exists c. lia.
+Qed.
+
+Section C03.
+Variable H1 H256 : bytes -> bytes.
+Variable B : nat.
+Hypothesis HB : 0 < B.
+Variable k pl : nat.
+Hypothesis Hpl : pl = B * 2 ^ k.
+
+Let pl_pos : 0 < pl := HasherV2Correct.pl_pos B HB k pl Hpl.
+
+Notation hybrid_output := (hybrid_output H1 H256 B pl).
+Notation hybrid_info := (hybrid_info H1 H256 B pl).
+
+Lemma pad_file_length_neg_mod d :
+  pad_file_length pl d =
+  if neg_mod (length d) pl =? 0 then None else Some (neg_mod (length d) pl).
+Proof.
+  unfold pad_file_length.
+  destruct (neg_mod_cases (length d) pl pl_pos) as [[E1 E2]|[E1 E2]]; rewrite E2.
+  - rewrite E1. reflexivity.
+  - destruct (Nat.eqb_spec (length d mod pl) 0); [lia|].
+    destruct (Nat.eqb_spec (pl - length d mod pl) 0); [|reflexivity].
+    pose proof (Nat.mod_upper_bound (length d) pl ltac:(lia)). lia.
+Qed.
+
+(* in a directory torrent the hybrid hashers produce exactly the --align entries *)
+Lemma hy_entries_aligned rel d : hy_entries pl true rel d = v1_aligned_entries pl (rel, d).
+Proof.
+  unfold hy_entries, hy_padfile, v1_aligned_entries. cbv zeta. cbn [fst snd]. f_equal.
+  rewrite (hybrid_padding_file B HB k pl Hpl), pad_file_length_neg_mod.
+  destruct (length d =? 0) eqn:E; [|destruct (neg_mod (length d) pl =? 0); reflexivity].
+  apply Nat.eqb_eq in E. rewrite E. unfold neg_mod.
+  rewrite Nat.mod_0_l, Nat.sub_0_r, Nat.mod_same by lia. reflexivity.
+Qed.
+
+Lemma hy_digests_padded d :
+  hy_digests H1 pl true d = map H1 (chunks pl (pad_to pl d)).
+Proof.
+  unfold hy_digests, hy_inputs. destruct (length d =? 0) eqn:E.
+  - apply Nat.eqb_eq in E. apply length_zero_iff_nil in E. subst d.
+    rewrite pad_to_nil by exact pl_pos. rewrite chunks_nil. reflexivity.
+  - rewrite (hybrid_pieces B HB k pl Hpl), (v1_inputs_padded_chunks B HB k pl Hpl).
+    rewrite pad_to_neg_mod, pad_file_length_neg_mod.
+    destruct (neg_mod (length d) pl =? 0) eqn:E0; [|reflexivity].
+    apply Nat.eqb_eq in E0. rewrite E0. reflexivity.
+Qed.
+
+Lemma hy_digests_plain d : hy_digests H1 pl false d = map H1 (chunks pl d).
+Proof.
+  unfold hy_digests, hy_inputs. destruct (length d =? 0) eqn:E.
+  - apply Nat.eqb_eq in E. apply length_zero_iff_nil in E. subst d. rewrite chunks_nil. reflexivity.
+  - rewrite (hybrid_pieces B HB k pl Hpl). reflexivity.
+Qed.
+
+Lemma digests_flat fs :
+  flat_map (fun f : list bytes * bytes => hy_digests H1 pl true (snd f)) fs =
+  map H1 (flat_map (fun d => chunks pl (pad_to pl d)) (map snd fs)).
+Proof.
+  induction fs as [|f fs IH]; [reflexivity|].
+  cbn [flat_map map]. rewrite map_app, hy_digests_padded, IH. reflexivity.
+Qed.
+
+(* the files of a directory in _traverse order *)
+Definition dir_files (es : list (bytes * node)) : list (list bytes * bytes) :=
+  files_of [] (sort_tree (Dir es)).
+
+(* T4a: info["files"] of a hybrid directory torrent: for each file, in file tree order, its
+   entry {"length", "path"} followed -- iff its length is not a multiple of the piece length,
+   and also after the last file -- by {"attr": "p", "length": n, "path": [".pad", str(n)]}
+   with n = -length mod pl *)
+Theorem hybrid_files_exact o name es m :
+  wf_node (Dir es) -> hybrid_output o name (Dir es) m ->
+  info_get k_files m = Some (BList (flat_map (v1_aligned_entries pl) (dir_files es))) /\
+  info_get k_length m = None.
+Proof.
+  intros Hwf Hm. rewrite !(hybrid_output_info_get H1 H256 B HB k pl Hpl o name _ m _ Hwf Hm).
+  unfold CreatorsProofs2.hybrid_info. cbv zeta. lk. split.
+  - f_equal. f_equal. unfold hybrid_files_spec, sfiles, dir_files, root_rel. cbn [is_file negb].
+    apply flat_map_ext. intros [rel d]. apply hy_entries_aligned.
+  - apply meta_init_info_other; neq.
+Qed.
+
+(* T4b (C03_same_files_same_order): dropping the pad entries leaves one entry per leaf of the
+   file tree, in the same order, with the same path and length *)
+Theorem hybrid_same_files_same_order o name es m :
+  wf_node (Dir es) -> hybrid_output o name (Dir es) m ->
+  exists l ft,
+    info_get k_files m = Some (BList l) /\ info_get k_file_tree m = Some ft /\
+    filter (fun v => negb (is_pad v)) l =
+      map (fun f => file_entry (fst f) (length (snd f))) (dir_files es) /\
+    leaves_v [] ft = map (fun f => (fst f, leaf_value H256 B (snd f))) (dir_files es).
+Proof.
+  intros Hwf Hm. destruct (hybrid_files_exact o name es m Hwf Hm) as [E _].
+  destruct (file_tree_mirrors_disk H1 H256 B HB k pl Hpl o name es m Hwf (or_intror Hm))
+    as (ft & Eft & L).
+  eexists _, ft. split; [exact E|]. split; [exact Eft|]. split; [apply filter_aligned_list|exact L].
+Qed.
+
+(* T4c (C03_files_start_on_piece_boundary) *)
+Theorem hybrid_files_start_on_piece_boundary o name es m l pre f post :
+  wf_node (Dir es) -> hybrid_output o name (Dir es) m ->
+  info_get k_files m = Some (BList l) -> l = pre ++ f :: post -> is_pad f = false ->
+  entries_total (map abs_entry pre) mod pl = 0.
+Proof.
+  intros Hwf Hm El Es Hf. destruct (hybrid_files_exact o name es m Hwf Hm) as [E _].
+  rewrite E in El. injection El as <-.
+  apply (f_equal (map abs_entry)) in Es. rewrite abs_aligned_list, map_app in Es. cbn [map] in Es.
+  eapply (v1_entries_align_file_offsets pl _ _ (abs_entry f)); [exact pl_pos|exact Es|exact Hf].
+Qed.
+
+(* T4d (C03_pad_entries_marked): a pad entry is {"attr": "p", "length": n, "path": [".pad",
+   str(n)]}, directly follows a payload entry of length len with n = pl - len mod pl (the gap
+   to the next piece boundary, 0 < n < pl), and ends on a piece boundary *)
+Theorem hybrid_pad_entries_marked o name es m l pre f post :
+  wf_node (Dir es) -> hybrid_output o name (Dir es) m ->
+  info_get k_files m = Some (BList l) -> l = pre ++ f :: post -> is_pad f = true ->
+  exists n, f = pad_entry n /\ 0 < n < pl /\
+    (exists pre' rel len, pre = pre' ++ [file_entry rel len] /\ n = pl - len mod pl) /\
+    (entries_total (map abs_entry pre) + n) mod pl = 0.
+Proof.
+  intros Hwf Hm El Es Hf. destruct (hybrid_files_exact o name es m Hwf Hm) as [E _].
+  rewrite E in El. injection El as <-.
+  assert (Hshape : forall v, In v (pre ++ f :: post) ->
+            (exists rel n, v = file_entry rel n) \/ (exists n, v = pad_entry n))
+    by (rewrite <- Es; apply aligned_list_shape).
+  destruct (Hshape f) as [(rel & n & ->)|(n & ->)];
+    [apply in_or_app; right; left; reflexivity|discriminate Hf|].
+  exists n. split; [reflexivity|].
+  pose proof Es as Ea. apply (f_equal (map abs_entry)) in Ea.
+  rewrite abs_aligned_list, map_app in Ea. cbn [map] in Ea. rewrite abs_pad_entry in Ea.
+  destruct (v1_entries_align_pad pl _ _ n _ pl_pos Ea) as (Hn & (pre2 & len & Ep & Hk & _) & Hs).
+  split; [exact Hn|]. split; [|exact Hs].
+  apply map_eq_app in Ep. destruct Ep as (pre' & lst & -> & _ & Elst).
+  destruct lst as [|x [|y lst]]; try discriminate. cbn [map] in Elst.
+  injection Elst as Ex1 Ex2.
+  destruct (Hshape x) as [(rel & n' & ->)|(n' & ->)].
+  - apply in_or_app. left. apply in_or_app. right. left; reflexivity.
+  - assert (A2 : entry_len (file_entry rel n') = n')
+      by (pose proof (abs_file_entry rel n') as A; unfold abs_entry in A; congruence).
+    rewrite A2 in Ex2. subst n'. exists pre', rel, len. split; [reflexivity|exact Hk].
+  - change (is_pad (pad_entry n')) with true in Ex1. discriminate Ex1.
+Qed.
+
+(* T4e (C03_pieces_hash_that_stream): info["pieces"] is the SHA-1 of the successive pl-slices of
+   the stream described by info["files"]: file bytes for payload entries, zeros for pad entries *)
+Theorem hybrid_pieces_hash_that_stream o name es m :
+  wf_node (Dir es) -> hybrid_output o name (Dir es) m ->
+  let datas := map snd (dir_files es) in
+  let entries := flat_map (v1_aligned_entries pl) (dir_files es) in
+  info_get k_pieces m =
+    Some (BStr (concat (map H1 (chunks pl (stream_of_entries (map abs_entry entries) datas))))) /\
+  stream_of_entries (map abs_entry entries) datas = concat (map (pad_to pl) datas).
+Proof.
+  intros Hwf Hm. cbv zeta.
+  assert (Es : stream_of_entries
+                 (map abs_entry (flat_map (v1_aligned_entries pl) (dir_files es)))
+                 (map snd (dir_files es)) = concat (map (pad_to pl) (map snd (dir_files es)))).
+  { rewrite abs_aligned_list.
+    replace (map (fun f => length (snd f)) (dir_files es))
+      with (map (@length ascii) (map snd (dir_files es))) by (rewrite map_map; reflexivity).
+    apply stream_of_entries_align. }
+  split; [|exact Es]. rewrite Es.
+  rewrite (hybrid_output_info_get H1 H256 B HB k pl Hpl o name _ m _ Hwf Hm).
+  unfold CreatorsProofs2.hybrid_info. cbv zeta. lk. f_equal. f_equal. f_equal.
+  unfold hybrid_digests_spec, sfiles, root_rel. cbn [is_file negb]. fold (dir_files es).
+  rewrite <- chunks_concat_padded by exact pl_pos. apply digests_flat.
+Qed.
+
+(* T4f (C03_single_file): a single file has info.length, no files list, and the plain BEP 3
+   pieces of the file (no zero padding of the last piece) *)
+Theorem hybrid_single_file o name d m :
+  hybrid_output o name (File d) m ->
+  info_get k_length m = Some (BInt (Z.of_nat (length d))) /\
+  info_get k_files m = None /\
+  info_get k_pieces m = Some (BStr (concat (map H1 (chunks pl d)))).
+Proof.
+  intros Hm. assert (Hwf : wf_node (File d)) by exact I.
+  rewrite !(hybrid_output_info_get H1 H256 B HB k pl Hpl o name _ m _ Hwf Hm).
+  unfold CreatorsProofs2.hybrid_info. cbv zeta. lk. split; [reflexivity|]. split.
+  - apply meta_init_info_other; neq.
+  - unfold hybrid_digests_spec, sfiles, root_rel. cbn [is_file negb sort_tree files_of flat_map snd].
+    rewrite app_nil_r, hy_digests_plain. reflexivity.
+Qed.
+
+End C03.
+
+(* ========================================================================================== *)
+(* 7. examples: the hypotheses are satisfiable (toy hashes of the right digest lengths,        *)
+(*    B = 2, k = 1, pl = 4)                                                                    *)
+(* ========================================================================================== *)
+
+Module CreatorsProofs2Examples.
+Import CreatorsExamples CreatorsProofsExamples.
+Import String.StringSyntax.
+
+Definition X1 (x : bytes) : bytes := firstn 20 (x ++ zeros 20).
+Definition X256 (x : bytes) : bytes := firstn 32 (x ++ zeros 32).
+
+Lemma X1_len x : length (X1 x) = 20.
+Proof. unfold X1. rewrite firstn_length, app_length, zeros_length. lia. Qed.
+Lemma X256_len x : length (X256 x) = 32.
+Proof. unfold X256. rewrite firstn_length, app_length, zeros_length. lia. Qed.
+
+Definition HB2 : 0 < 2 := Nat.lt_0_succ 1.
+Definition Hpl4 : 4 = 2 * 2 ^ 1 := eq_refl.
+
+Definition ex_m : value := create_assembler X1 X256 2 true ex_opts (bs "r") 4 ex_tree.
+
+Lemma ex_m_out : hybrid_output X1 X256 2 4 ex_opts (bs "r") ex_tree ex_m.
+Proof. constructor. Qed.
+
+(* T6 *)
+Example ex_T6_canon : canon ex_m.
+Proof. exact (create_assembler_hybrid_canon X1 X256 2 HB2 1 4 Hpl4 ex_opts (bs "r") ex_tree ex_tree_wf). Qed.
+
+Example ex_T6_canon_v1 : canon (create_v1 X1 true ex_opts (bs "r") (bs "r") 4 ex_tree).
+Proof. apply create_v1_canon. Qed.
+
+Example ex_T6_structure : v1_structure_ok ex_m /\ v2_structure_ok ex_m.
+Proof.
+  exact (hybrid_output_structure_ok X1 X256 2 HB2 1 4 Hpl4 X1_len X256_len ex_opts (bs "r")
+           ex_tree ex_m ex_tree_wf ex_m_out).
+Qed.
+
+(* T3: the file b (10 bytes > pl) has its root in piece layers with its own BEP 52 layer *)
+Example ex_T3_layers :
+  lookup (bep52_root X256 2 (bs "0123456789")) (layers_of ex_m) =
+  Some (BStr (concat (bep52_piece_layer X256 2 1 (bs "0123456789")))).
+Proof.
+  destruct (piece_layers_has X1 X256 2 HB2 1 4 Hpl4 ex_opts (bs "r") ex_tree ex_m
+              [bs "b"] (bs "0123456789") ex_tree_wf (or_intror ex_m_out)) as (p' & d' & _ & _ & _ & K).
+  - vm_compute. left; reflexivity.
+  - vm_compute. lia.
+  - vm_compute. reflexivity.
+Qed.
+
+(* T3: leaves in dictionary order: a/e, a/z, a.txt, b *)
+Example ex_T3_leaves :
+  map fst (files_of [] (sort_tree ex_tree)) =
+  [[bs "a"; bs "e"]; [bs "a"; bs "z"]; [bs "a.txt"]; [bs "b"]].
+Proof. vm_compute. reflexivity. Qed.
+
+(* T4: the files list with its pad entries *)
+Example ex_T4_files :
+  info_get k_files ex_m =
+  Some (BList [file_entry [bs "a"; bs "e"] 0; file_entry [bs "a"; bs "z"] 5; pad_entry 3;
+               file_entry [bs "a.txt"] 3; pad_entry 1; file_entry [bs "b"] 10; pad_entry 2]).
+Proof.
+  destruct (hybrid_files_exact X1 X256 2 HB2 1 4 Hpl4 ex_opts (bs "r") _ ex_m ex_tree_wf ex_m_out)
+    as [E _].
+  rewrite E. vm_compute. reflexivity.
+Qed.
+
+(* T4: single file *)
+Example ex_T4_single :
+  info_get k_pieces (create_hybrid_class X1 X256 2 ex_opts (bs "f") 4 (File (bs "01234"))) =
+  Some (BStr (X1 (bs "0123") ++ X1 (bs "4"))).
+Proof.
+  destruct (hybrid_single_file X1 X256 2 HB2 1 4 Hpl4 ex_opts (bs "f") (bs "01234") _
+              (out_hybrid_class _ _ _ _ _ _ _)) as (_ & _ & E).
+  rewrite E. vm_compute. reflexivity.
+Qed.
+End CreatorsProofs2Examples.
+
+(* ========================================================================================== *)
+(* 8. assumptions                                                                              *)
+(* ========================================================================================== *)
+Print Assumptions create_v1_canon.
+Print Assumptions create_v1_structure_ok.
+Print Assumptions v2_output_canon.
+Print Assumptions hybrid_output_canon.
+Print Assumptions create_v2_class_canon.
+Print Assumptions create_assembler_v2_canon.
+Print Assumptions create_hybrid_class_canon.
+Print Assumptions create_assembler_hybrid_canon.
+Print Assumptions v2_output_structure_ok.
+Print Assumptions hybrid_output_structure_ok.
+Print Assumptions file_tree_mirrors_disk.
+Print Assumptions file_tree_has_every_file.
+Print Assumptions file_tree_single_file.
+Print Assumptions piece_layers_has.
+Print Assumptions piece_layers_own.
+Print Assumptions piece_layers_only.
+Print Assumptions piece_layer_count.
+Print Assumptions hybrid_files_exact.
+Print Assumptions hybrid_same_files_same_order.
+Print Assumptions hybrid_files_start_on_piece_boundary.
+Print Assumptions hybrid_pad_entries_marked.
+Print Assumptions hybrid_pieces_hash_that_stream.
+Print Assumptions hybrid_single_file.
